@@ -407,4 +407,61 @@ def plainCfg (cfg : DeployCfg) : Bool :=
   | some [] => true
   | some (c :: _) => isSlash c
 
+
+/-! ## the login / signup flow that uses the validated URL (`login`, `signup`, `callback`, `creating_account` of auth/auth/auth.py) -/
+
+inductive Caller where
+  | login | signup
+deriving DecidableEq, Repr
+
+/-- the account the OAuth identity (`login_id`) belongs to -/
+inductive Account where
+  | none | creating | active | inactive | deleting | deleted
+deriving DecidableEq, Repr
+
+/-- where a 302 of the flow points -/
+inductive Target where
+  | idp          -- the identity provider's authorization URL (`flow_data['authorization_url']`)
+  | authHome     -- `deploy_config.external_url('auth', '')`
+  | creatingPage -- `deploy_config.external_url('auth', '/creating')`
+  | next         -- the `next` string taken from the query / the session
+deriving DecidableEq, Repr
+
+inductive Resp where
+  | redirect (t : Target)
+  | badRequest      -- 400 of `validate_next_page_url`
+  | unauthorized    -- 401
+  | page            -- a rendered page (account-error / account-creating), no redirect
+  | serverError     -- an `assert` of the handler fails
+deriving DecidableEq, Repr
+
+/-- `/login` and `/signup`: `next = request.query.get('next', <auth>/user)`; `validate_next_page_url(next)`; store it in a new
+session; redirect to the identity provider.  `nextOk` = the verdict of `validate` on that string. -/
+def entryResp (nextOk : Bool) : Resp := if nextOk then .redirect .idp else .badRequest
+
+/-- `/oauth2callback`.  `hasFlow`: `'flow' in session`; `nextOk`: verdict of `validate` on `session.pop('next', <auth>/user)` — the
+handler validates it AGAIN, for both callers, before anything else; `signupOk`: organization matches and `insert_new_user` works. -/
+def callbackResp (hasFlow : Bool) (caller : Caller) (nextOk : Bool) (acct : Account) (signupOk : Bool) : Resp :=
+  if !hasFlow then .unauthorized
+  else if !nextOk then .badRequest
+  else match acct with
+    | .none =>
+      match caller with
+      | .login => .redirect .authHome
+      | .signup => if signupOk then .redirect .creatingPage else .redirect .authHome   -- (org mismatch: 401, folded into signupOk by the harness)
+    | .deleting | .deleted | .inactive => .page
+    | .creating => .redirect .creatingPage
+    | .active => .redirect .next
+
+/-- `/creating`.  `pending`: `'pending' in session`. -/
+def creatingResp (pending : Bool) (nextOk : Bool) (acct : Account) : Resp :=
+  if !pending then .unauthorized
+  else if !nextOk then .badRequest
+  else match acct with
+    | .none => .redirect .authHome
+    | .deleting | .deleted => .page
+    | .active => .redirect .next
+    | .creating => .page
+    | .inactive => .serverError        -- `assert user['state'] == 'creating'`
+
 end HailVerif.NextUrl
